@@ -21,6 +21,8 @@ pub enum Hop {
   Unsub(usize),
   Emit,
   SrcComplete,
+  /// the hot source fails
+  SrcError,
   Connect,
   /// let one period of virtual time pass (interval source) and run the executor
   Tick,
@@ -286,23 +288,25 @@ pub fn observe(c: &Case) -> Result<Obs, String> {
             }
           }
         }
-        Hop::SrcComplete => {
+        Hop::SrcComplete | Hop::SrcError => {
           if c.src != SrcKind::Hot || src_done || rejoin_at.is_some() {
             continue;
           }
+          let fails = *hop == Hop::SrcError;
           src_done = true;
           if connected {
             for k in 0..3 {
               if active[k] {
-                expected[k].push(N::Complete);
+                expected[k].push(if fails { N::Err(7) } else { N::Complete });
                 active[k] = false;
               }
             }
           }
-          if c.mode == Mode::ShareThreads {
-            hot_t.clone().complete()
-          } else {
-            hot_l.clone().complete()
+          match (c.mode == Mode::ShareThreads, fails) {
+            (true, false) => hot_t.clone().complete(),
+            (true, true) => hot_t.clone().error(7),
+            (false, false) => hot_l.clone().complete(),
+            (false, true) => hot_l.clone().error(7),
           }
         }
         Hop::Tick => {
@@ -449,7 +453,7 @@ pub fn random_case(r: &mut Rng, max_len: usize) -> Case {
           Hop::Emit
         }
       }
-      9 => Hop::SrcComplete,
+      9 => if r.chance(1, 2) { Hop::SrcComplete } else { Hop::SrcError },
       10 if mode == Mode::Publish => Hop::Connect,
       _ => {
         if src == SrcKind::Interval {
